@@ -390,10 +390,11 @@ func (gs GenesisState) ValidateSlashStates(operators, avs map[string]struct{}) e
 		}
 		// validate the slashing record regarding undelegation
 		SlashFromUndelegationVal := func(_ int, slashFromUndelegation SlashFromUndelegation) error {
-			if slashFromUndelegation.Amount.IsNil() || slashFromUndelegation.Amount.LTE(sdkmath.NewInt(0)) {
+			// the amount is zero when the slashed proportion of a small undelegation rounds down to nothing
+			if slashFromUndelegation.Amount.IsNil() || slashFromUndelegation.Amount.IsNegative() {
 				return errorsmod.Wrapf(
 					ErrInvalidGenesisData,
-					"invalid slashing amount from the undelegation, it's nil, zero, or negative: %+v",
+					"invalid slashing amount from the undelegation, it's nil or negative: %+v",
 					slash,
 				)
 			}
@@ -409,10 +410,11 @@ func (gs GenesisState) ValidateSlashStates(operators, avs map[string]struct{}) e
 		}
 		// validate the slashing record regarding assets pool
 		SlashFromAssetsPoolVal := func(_ int, slashFromAssetsPool SlashFromAssetsPool) error {
-			if slashFromAssetsPool.Amount.IsNil() || slashFromAssetsPool.Amount.LTE(sdkmath.NewInt(0)) {
+			// the amount is zero when the slashed proportion of a small pool rounds down to nothing
+			if slashFromAssetsPool.Amount.IsNil() || slashFromAssetsPool.Amount.IsNegative() {
 				return errorsmod.Wrapf(
 					ErrInvalidGenesisData,
-					"invalid slashing amount from the assets pool, it's nil, zero, or negative: %+v",
+					"invalid slashing amount from the assets pool, it's nil or negative: %+v",
 					slash,
 				)
 			}
